@@ -90,6 +90,14 @@ CHECKS["C04"] = {
     "design_ref": "DESIGN.md 2.3, 3 (C04)",
 }
 
+CHECKS["C15"] = {
+    "engine": "H+W",
+    "technique": "deterministic simulation: seeded histories of load() calls on one long-lived dataset over a stub-written world, with injected interrupts (k-th file open raises KeyboardInterrupt/EIO, predicate raises at its k-th evaluation); differential oracle against a fresh dataset per call; ddmin-minimised replay",
+    "text": "Seeded search over histories of 2..8 load() calls (full, group lists, groups off, variable lists, value/position/level predicates triggering CPU pre-selection and level caps, cpu_list, sortby) on one RamsesDataset; in the fault batch calls are interrupted at a drawn file open or predicate evaluation and the history continues on the same object. After each successful call every group it produced must equal (keys, values, units, exactly) the result of a fresh dataset with the same arguments, earlier groups must be bit-identical to their snapshot, ncells/nparticles must match; an interrupted call must change no group. Fault-free and fault batches are counted separately. Sampling, not proof.",
+    "note": "Trusted: a fresh RamsesDataset as the reference for each call (itself checked against the ground truth by C01/C04/C12/C13/C14); the stub writer.",
+    "design_ref": "DESIGN.md 2.3, 2.4, 3 (C15)",
+}
+
 PENDING_REASON = "check not built yet in this snapshot of /verif (planned and applicable, see DESIGN.md section 3); not claimed until its check exists"
 ALL = ["C%02d" % i for i in range(1, 21)]
 
